@@ -114,15 +114,37 @@ def check_class_thread(R, prog):
                     R.bad(F("CLASS-THREAD", fi, "%s -> %s without formula_class" % (fi.qualname, t.qualname),
                             "the nested generator is called without formula_class=formula_class: its part of the formula is always a CNF", c))
     R.floor("CLASS-THREAD generators", ngen, 28)
-    nh = 0
+    pairs = set()
     for fi in helper_builders(prog):
         calls = []
+        # a local name bound only to generator functions (`builder = OrderingPrinciple`, `builder, domain = GraphOrderingPrinciple, G`)
+        alias, spoiled = {}, set()
+        for st in walk_shallow(fi.node):
+            if isinstance(st, ast.Assign) and len(st.targets) == 1:
+                tg, vl = st.targets[0], st.value
+                pairs_ = [(tg, vl)] if isinstance(tg, ast.Name) else (
+                    list(zip(tg.elts, vl.elts)) if isinstance(tg, (ast.Tuple, ast.List)) and isinstance(vl, (ast.Tuple, ast.List)) and len(tg.elts) == len(vl.elts)
+                    else [(e, None) for e in getattr(tg, "elts", [])])
+                for a_, v_ in pairs_:
+                    if not isinstance(a_, ast.Name):
+                        continue
+                    t_ = prog.resolve_global(fi.module, v_.id) if isinstance(v_, ast.Name) else None
+                    if isinstance(t_, FuncInfo) and "formula_class" in t_.params:
+                        alias.setdefault(a_.id, []).append(t_)
+                    else:
+                        spoiled.add(a_.id)
+            elif isinstance(st, (ast.For, ast.comprehension)):
+                spoiled |= {n.id for n in ast.walk(st.target) if isinstance(n, ast.Name)}
         for c in [x for x in walk_shallow(fi.node) if isinstance(x, ast.Call) and isinstance(x.func, ast.Name)]:
+            if c.func.id in alias and c.func.id not in spoiled and c.func.id not in fi.params:
+                for t in alias[c.func.id]:
+                    calls.append((c, t))
+                continue
             t = prog.resolve_global(fi.module, c.func.id)
             if isinstance(t, FuncInfo) and "formula_class" in t.params:
                 calls.append((c, t))
         for c, t in calls:
-            nh += 1
+            pairs.add((fi.key, t.key))
             passed = [k for k in c.keywords if k.arg == "formula_class"]
             pos = t.params.index("formula_class")
             positional = len(c.args) > pos and not t.node.args.vararg
@@ -135,7 +157,10 @@ def check_class_thread(R, prog):
         direct = [c for c in walk_shallow(fi.node) if isinstance(c, ast.Call) and isinstance(c.func, ast.Name) and c.func.id in ("CNF", "OPB")]
         for c in direct:
             R.bad(F("CLASS-THREAD", fi, "%s constructs %s directly" % (fi.qualname, c.func.id), "a helper must build through formula_class", c))
-    R.floor("CLASS-THREAD helper calls", nh, 34)
+    R.floor("CLASS-THREAD (helper, generator) pairs", len(pairs), HELPER_PAIRS_FLOOR)
+
+
+HELPER_PAIRS_FLOOR = 32        # distinct (command-line helper, generator it calls with formula_class) pairs confirmed by hand
 
 
 def check_mro(R, prog):
